@@ -1302,6 +1302,20 @@ def run(ctx):
     if ctx.shard == 0:
         directed(ctx)
     enumerated(ctx)
+    # item runs longer than 1 KiB / 64 KiB (where a block-wise path could take over), for every item size 2..8 bytes
+    for i in range(ctx.scale(8, 100)):
+        rng = ctx.rng
+        sz = rng.choice([3, 5, 6, 7, 2, 4, 8, 3])
+        nbytes = rng.choice([1024, 4096, 65536 + sz, 65536 * 2 + 3 * sz]) // sz * sz + rng.choice([0, 0, sz, 1])
+        bits = util.rb(rng, 8 * nbytes)
+        case = {'k': 'byteswap', 'bin': bits, 'pat': rng.choice([sz, [sz], ['s', '', [[1, {2: 'h', 4: 'l', 8: 'q'}.get(sz, 'b')]], {2: 'h', 4: 'l', 8: 'q'}.get(sz, 'b')]]),
+                'cls': rng.choice(['BitArray', 'BitStream'])}
+        if rng.random() < 0.3:
+            case['start'] = 8 * rng.choice([1, sz, 100])
+        ctx.run_case(judge, case)
+        if sz in (2, 3, 4, 5, 8):
+            dt = {2: 'uintbe16', 3: 'uintbe24', 4: 'uintle32', 5: 'int40', 8: 'floatle64'}[sz]
+            ctx.run_case(judge, {'k': 'arr_bswap', 'dtype': dt, 'itemsize': 8 * sz, 'bin': bits[:8 * (nbytes // sz * sz)]})
     n = ctx.scale(90000, 3600000)
     mix = [(gen_pack, 0.38), (gen_array, 0.17), (gen_endian, 0.17), (gen_byteswap, 0.17), (gen_arr_bswap, 0.05)]
     rng = ctx.rng
